@@ -47,6 +47,11 @@ CHECKS = {
    text="TLC checks list = product, associativity, multiplicative determinant, rotate-about-centre, and affine invariance of Bezier evaluation for every list of <= 3 of 14 operations, and JointsKept (incl. the closing joint) for every joint pattern with independently rounded images; all ~200 distinct product matrices are applied with transform() to lattice Beziers (1e-12) and lattice arcs (1e-6) and image.point(t) is compared with M(point(t)); translated / rotated (default and explicit origins, angles incl. 390) / scaled (2, 1/2, -1, -3, 1/3; non-uniform on Beziers; arcs must refuse or be right); every joint pattern of <= 4 segments (L / Q / C / A mixes) is mapped with rounding-prone factors and joints that coincided must coincide exactly, closed paths stay closed.",
    note="Trusted: TLC, numpy for applying M to a point. Singular matrices are not generated (outside the property).",
    ref="4 (C10), 3.9"),
+ 'C15': dict(
+   technique="TLA+ model of end tangents of Bezier curves with coincident control points (BezierTan.tla: Taylor expansion at the ends) model-checked with TLC, plus the lattice arc walk; every model curve, under lattice similarities and reversal, replayed through unit_tangent / normal / curvature",
+   text="TLC checks TaylorAt0 / TaylorAt1 (all lower derivatives vanish at the end and the first non-vanishing one is the stated positive multiple of the first non-vanishing control difference, in the direction of travel) for every degree 2-3 curve with 0-2 coincident control points at either end heading into 12 directions; each curve - plain, translated, rotated by 90k/30/-45 degrees, scaled by 2, 1/2, -3, and reversed - must give unit_tangent(0/1) = the model direction with its sign, modulus 1, normal = -i tangent, and the exact tangent/curvature at t = 1/2 from the model's integer derivatives; lines; lattice arcs: tangent along the sweep, curvature 1/r on circles and the closed form on ellipses.",
+   note="Trusted: TLC. Interior cusps are not generated (two-sided limit ambiguous); curvature at an end with vanishing derivative is not compared.",
+   ref="4 (C15)"),
  'C16': dict(
    technique="TLA+ state machine of Path's mutators and caches (PathSeq) and of the per-segment length cache (SegCache) model-checked with TLC; every behaviour replayed on real objects and compared with fresh ones; recorded histories validated by PathSeq_Trace.tla",
    text="TLC checks CacheCoherent / AnswerFresh / MutInvalidates over all histories of the 15 mutator and query actions to depth 4 (quick) / 6 (thorough); every behaviour of a small configuration plus simulated long ones is replayed on a warm and a lazy real Path with every query compared with a freshly built Path and with the model after each step, with and without scipy; SegCache histories are replayed on real Cubic/Quadratic segments; random 60-step histories of real Paths are accepted by the trace spec, which demands the fresh answers.",
